@@ -102,11 +102,13 @@ func (s *socket) SendMsg(m *protocol.Message) error {
 
 func (s *socket) RecvMsg() (*protocol.Message, error) {
 	timeQ := nilQ
+	s.Lock()
+	if s.recvExpire > 0 {
+		timeQ = time.After(s.recvExpire)
+	}
+	s.Unlock()
 	for {
 		s.Lock()
-		if timeQ == nil && s.recvExpire > 0 {
-			timeQ = time.After(s.recvExpire)
-		}
 		closeQ := s.closeQ
 		recvQ := s.recvQ
 		sizeQ := s.sizeQ
